@@ -745,6 +745,74 @@ theorem compile_rel2 (hctx : ctxT.typeOf.isRecordType = true → CtxOK req.conte
 
 end
 
+/-! ### `ctxTermOf` (the `Record` arm of `Term::from_value`) builds a term satisfying `CtxOK` -/
+
+theorem termOfPrim_eq (p : Prim) : termOfPrim p = .prim (litPrim p) := by cases p <;> rfl
+
+/-- the part of "the context conforms to the flat context type `attrs`" that `CtxOK` needs: every attribute the context
+    supplies is declared and its value is a primitive (longs in the i64 range, an invariant of `Value`s built by the
+    parser / evaluator).  (Full conformance — value of the declared type, required attributes present — implies it.) -/
+def FlatConforms (ctx : List (String × Value)) (attrs : List (Attr × CtxAttrTy × Bool)) : Prop :=
+  ∀ a v, lookupKV ctx a = some v → (∃ p, v = .prim p ∧ PrimOk p) ∧ a ∈ attrs.map (·.1)
+
+theorem ctxTermOf_spec (ctx : List (String × Value))
+    (hv : ∀ a v, lookupKV ctx a = some v → ∃ p, v = .prim p ∧ PrimOk p) :
+    ∀ (attrs : List (Attr × CtxAttrTy × Bool)), ∃ t, ctxTermOf ctx attrs = some t ∧ t.isRecord = true ∧
+      (∀ a ft, recFind? t a = some ft → FieldOK (lookupKV ctx a) ft) ∧
+      (∀ a, recFind? t a = none → a ∉ attrs.map (·.1))
+  | [] => ⟨.recNil, rfl, rfl, by simp [recFind?], by simp⟩
+  | (b, ty, rq) :: rest => by
+    obtain ⟨rt, hrt, hrec, hfld, hno⟩ := ctxTermOf_spec ctx hv rest
+    have hfind : ∀ (x : Term) a, recFind? (.recCons b x rt) a = if b == a then some x else recFind? rt a := by
+      intro x a; simp [recFind?]
+    cases hl : lookupKV ctx b with
+    | none =>
+      refine ⟨.recCons b (noneOf ty.termType) rt, by simp [ctxTermOf, hrt, hl], by simpa [Term.isRecord] using hrec, ?_, ?_⟩
+      · intro a ft h
+        rw [hfind] at h
+        split at h
+        · rename_i hb
+          have : b = a := by simpa using hb
+          subst this
+          simp only [Option.some.injEq] at h
+          subst h
+          exact Or.inr ⟨hl, _, rfl⟩
+        · exact hfld a ft h
+      · intro a h
+        rw [hfind] at h
+        split at h
+        · simp at h
+        · rename_i hb
+          have hne : ¬ b = a := by simpa using hb
+          simp only [List.map_cons, List.mem_cons, not_or]
+          exact ⟨fun e => hne e.symm, hno a h⟩
+    | some v =>
+      obtain ⟨p, rfl, hp⟩ := hv b v hl
+      refine ⟨.recCons b (if rq then termOfPrim p else someOf (termOfPrim p)) rt, by simp [ctxTermOf, hrt, hl],
+        by simpa [Term.isRecord] using hrec, ?_, ?_⟩
+      · intro a ft h
+        rw [hfind] at h
+        split at h
+        · rename_i hb
+          have : b = a := by simpa using hb
+          subst this
+          simp only [Option.some.injEq] at h
+          subst h
+          refine Or.inl ⟨p, hp, hl, ?_⟩
+          cases rq
+          · right; simp [termOfPrim_eq, someOf]
+          · left; simp [termOfPrim_eq]
+        · exact hfld a ft h
+      · intro a h
+        rw [hfind] at h
+        split at h
+        · simp at h
+        · rename_i hb
+          have hne : ¬ b = a := by simpa using hb
+          simp only [List.map_cons, List.mem_cons, not_or]
+          exact ⟨fun e => hne e.symm, hno a h⟩
+
+
 theorem inFrag_sound : ∀ (e : Expr), inFrag e = true → SFrag e
   | .lit (.bool b), _ => .litBool b
   | .lit (.int i), h => .litInt i (by simpa [inFrag] using h)
